@@ -231,8 +231,25 @@ def run_shard(shard, tier, seed):
         for v in res.violations:
             v["case"]["part"] = "layered-architecture"
     elif shard["part"] == "layer-rule":
+        layer_of = {"r.a": "A", "r.b": "B", "^r\\.c$": "C"}
+
+        def one_subject_layer(obj, st, hist):
+            # "exactly one subject layer": in every reachable builder state the subject filters of the
+            # lowered rule belong to at most one layer (read through Rule.rule_subjects; skipped if the
+            # implementation no longer exposes it)
+            rule = getattr(obj, "_rule", None)
+            subs = getattr(rule, "rule_subjects", None) if rule is not None else None
+            if subs is None:
+                res.stats["subject-layers:not-observable"] += 1
+                return
+            layers = {layer_of.get(f.identifier, f.identifier) for f in subs}
+            res.stats["subject-layers:observed"] += 1
+            if len(layers) > 1:
+                res.violation("accepted-layer-rule-has-several-subject-layers", {"history": [list(a) for a in hist]},
+                              "at most one subject layer", sorted(layers))
+
         n, t, fix, deep = e2.explore(LayerRule, LR_ACTIONS, LR_METHODS, lr_canon, (False, False, None, 0), lr_spec_step,
-                                     lambda o: None, shard["depth"], res)
+                                     lambda o: None, shard["depth"], res, on_node=one_subject_layer)
         res.extra["lr_fixpoint_reached"] = bool(fix)
         res.extra["lr_states"] = n
         res.nontrivial += res.stats["REJECT:ERR"] + res.stats["ACCEPT:OK"]
@@ -271,9 +288,21 @@ def _check_case(case):
         if out[0] == "FAIL":
             return ("builder-call-raised-assertion-error", {"class": cls, "call": i}, list(out))
         if out[0] == "OK":
-            if cls == DONT and not last:
+            if cls == DONT:
+                if last and case.get("part") != "layer-rule":
+                    w = la_supplied_still_listed(obj, st, a)
+                    if w:
+                        return w
                 return None  # outside the property
             st = nxt
+    if case.get("part") == "layer-rule":
+        rule = getattr(obj, "_rule", None)
+        subs = getattr(rule, "rule_subjects", None) if rule is not None else None
+        if subs is not None:
+            layer_of = {"r.a": "A", "r.b": "B", "^r\\.c$": "C"}
+            layers = {layer_of.get(f.identifier, f.identifier) for f in subs}
+            if len(layers) > 1:
+                return ("accepted-layer-rule-has-several-subject-layers", "at most one subject layer", sorted(layers))
     return None
 
 
